@@ -80,6 +80,8 @@ type input struct {
 	MaxElapMs int     `json:"maxelap"`            // forwarder max-request-elapsed-time in ms (0 = 1ns: no retries)
 	Slots     int     `json:"slots"`              // consolidator slots = parsers
 	Compress  bool    `json:"compress"`
+	RegLat    int     `json:"reglat,omitempty"`  // ms the fake Runtime API takes to answer /register
+	SubLat    int     `json:"sublat,omitempty"`  // ms it takes to answer the telemetry subscription
 	FlushMs   int     `json:"flushms,omitempty"` // http-transport.flush-interval in ms (0 = default 1 s); README: not respected in manual-flush mode
 	Cold      int     `json:"cold,omitempty"`  // cold-start records (platform.initStart, platform.initRuntimeDone, platform.initReport): 1 = one batch during the init phase (before the first GET /next), 2 = one batch at the start of invocation 1, 3 = inside the runtimeDone batch of invocation 1, 4 = three batches during the init phase
 	TSeed     int     `json:"tseed,omitempty"` // seed for the types of the "other" telemetry records
@@ -336,6 +338,9 @@ func runScenario(in input) (res result) {
 		io.Copy(io.Discard, r.Body)
 		ok := in.Mode != "regfail"
 		lg.add(ev{K: "register", Ok: ok})
+		if in.RegLat > 0 {
+			time.Sleep(time.Duration(in.RegLat) * time.Millisecond)
+		}
 		if !ok {
 			w.WriteHeader(http.StatusInternalServerError)
 			return
@@ -347,8 +352,11 @@ func runScenario(in input) (res result) {
 	mux.HandleFunc("/2022-07-01/telemetry", func(w http.ResponseWriter, r *http.Request) {
 		io.Copy(io.Discard, r.Body)
 		ok := in.Mode != "subfail"
-		subAt.Store(time.Now().UnixNano())
 		lg.add(ev{K: "subscribe", Ok: ok})
+		if in.SubLat > 0 {
+			time.Sleep(time.Duration(in.SubLat) * time.Millisecond)
+		}
+		subAt.Store(time.Now().UnixNano())
 		if !ok {
 			w.WriteHeader(http.StatusInternalServerError)
 			return
@@ -1004,7 +1012,10 @@ func genCase(r *hlib.Rand, k int, tier string) input {
 		return in
 	case k%10 == 9:
 		in.Stream = "startup"
-		in.Mode = hlib.Pick(r, []string{"noendpoint", "telebind", "regfail", "subfail"})
+		in.Mode = hlib.Pick(r, []string{"noendpoint", "noendpoint", "telebind", "telebind", "regfail", "subfail"})
+		// a Runtime API that is slow to answer: the start window begins only after the subscription
+		in.RegLat = hlib.Pick(r, []int{0, 0, 50, 120, 200})
+		in.SubLat = hlib.Pick(r, []int{0, 50, 120, 200, 200})
 		return in
 	case k%10 == 4 || k%10 == 8:
 		in.Stream = "retry"
@@ -1020,6 +1031,12 @@ func genCase(r *hlib.Rand, k int, tier string) input {
 	in.TSeed = 1 + r.Intn(1<<30)
 	if r.Chance(1, 2) {
 		in.Cold = r.Range(1, 4)
+	}
+	if r.Chance(1, 5) {
+		in.RegLat = hlib.Pick(r, []int{50, 120})
+	}
+	if r.Chance(1, 5) && in.Cold != 1 && in.Cold != 4 {
+		in.SubLat = hlib.Pick(r, []int{50, 120, 200})
 	}
 	ninv := r.Range(2, 4)
 	if tier == "thorough" {
@@ -1092,6 +1109,14 @@ func main() {
 	switch a.Mode {
 	case "gen":
 		r := hlib.NewRand(a.Seed)
+		if a.Tier == "thorough" {
+			// waits longer than any quick-tier invocation: one invocation of ~33 s and one of ~65 s, started
+			// first so that they run alongside the rest of the stream (no extra wall time)
+			for _, hold := range []int{65000, 33000} {
+				inputs = append(inputs, input{Mode: "run", Stream: "longwait", Slots: 1, TSeed: hold,
+					Invs: []invIn{{K: 2, Hold: hold, Lat: 5, Pre: 1, Post: 1}, {K: 1, Lat: 5}}})
+			}
+		}
 		for k := 0; k < a.N; k++ {
 			inputs = append(inputs, genCase(r, k, a.Tier))
 		}
